@@ -484,6 +484,7 @@ def theorem_cases(cx, head, cases, tag):
         impl = core_ops_of_diff(c.D[1], keyed=(thm == "kl"))
         cx.count(("uocore", c.s.name, c.a, c.b), bool(core), "diff:uocore-%s:%s" % (thm, "ops" if core else "empty"))
         if impl != core:
+            cx.dist["thm:apply_diff_userord_flat_%s:libyang-diff-differs-from-core" % thm] += 1
             cx.disagree(COMP, l, ["ok", r[1], r[2]] + impl, r)
 
 
